@@ -117,11 +117,43 @@ def real(run, fw, exe):
     return run.c11_fwrt_real
 
 
+def in_domain(fw, req):
+    """task bitmaps built from the enumerators of enum mframe_task, frame numbers below the hyperframe"""
+    toks = req.split()
+    if len(toks) < 3 or toks[0] != "mf.run":
+        return False
+    valid = 0
+    for _, v in fw["tasks"]:
+        valid |= 1 << v
+    try:
+        t, g, sf = [int(x) for x in toks[2].split(",")]
+        if (t | g) & ~valid:
+            return False
+        for op in toks[3:]:
+            if op in ("r", "p"):
+                continue
+            if op[0] == "s":
+                if int(op[1:]) & ~valid:
+                    return False
+            elif op[0] in "ed":
+                if not (valid >> int(op[1:])) & 1:
+                    return False
+            elif op[0] == "t":
+                a, b = [int(x) for x in op[1:].split(",")]
+                if a + b > H:
+                    return False
+            else:
+                return False
+    except ValueError:
+        return False
+    return True
+
+
 def correspond(run, corr, fw, exe):
     reqs, impl = real(run, fw, exe)
     lines = [r for r, _ in reqs]
     model = vf.run_driver(lines)
-    corr.compare(lines, impl, model)
+    corr.compare(lines, impl, model, in_domain=lambda r: in_domain(fw, r), model_ub=lambda b: b.startswith("crash:"))
     for (r, m), a in zip(reqs, impl):
         corr.count(r, "mf.run %s%s" % (m["kind"], " crash" if a.startswith("crash") else ""))
     corr.samples.append({"request": lines[0][:300], "impl": impl[0][:300], "model": model[0][:300]})
@@ -141,58 +173,69 @@ def parse_tick(tok):
     return calls, int(tasks), int(safe)
 
 
+def judge(req, m, ans, single):
+    """witnesses of one `cycle` history.  `single`: task id -> {"crash":.., "events": {fn: [(off, set, p3)]}} from
+    the real single-task runs.  With several tasks the calls of a tick must be exactly those of the active tasks
+    taken alone, in task order, each once; a disabled task is not scheduled from the next mframe_schedule() on; the
+    active set never exceeds the target set and equals it when nothing scheduled is in the way."""
+    if ans.startswith("crash"):
+        return [{"kind": "fw-runtime", "what": "mframe_schedule() faulted: %s" % ans, "request": req[:200],
+                 "replay": {"request": req, "meta": m}}]
+    ops = ans.split("|")
+    tgt = m["init"][1]
+    maxrv = max([2] + list(m["rvs"]))
+    quiet = 10 ** 9          # ticks since the last call (start: reset => nothing in the way)
+    for h, o in zip(m["hist"], ops):
+        if h[0] == "r":
+            tgt = 0
+            quiet = 10 ** 9
+        elif h[0] == "s":
+            tgt = h[1]
+        elif h[0] == "e":
+            tgt |= 1 << h[1]
+        elif h[0] == "d":
+            tgt &= ~(1 << h[1])
+        if h[0] != "t":
+            continue
+        for k, tok in enumerate(o.split(" ") if o != "-" else []):
+            fn = h[1] + k
+            calls, tasks, safe = parse_tick(tok)
+            exp = []
+            for t in range(32):
+                if (tasks >> t) & 1:
+                    s1 = single.get(t)
+                    if s1 is None or s1["crash"]:
+                        continue
+                    exp += [(fn, off, st, p3) for off, st, p3 in s1["events"].get(fn, [])]
+            bad = None
+            if tasks & ~tgt:
+                bad = "a task that is not in the target set is active"
+            elif calls != exp:
+                bad = "the calls of the tick are not those of the active tasks taken alone"
+            elif quiet > maxrv + 2 and tasks != tgt:
+                bad = "nothing scheduled is in the way, but the active set is not the target set"
+            if bad:
+                return [{"kind": "fw-runtime", "fn": fn, "tasks_active": tasks, "tasks_target": tgt, "safe_fn": safe,
+                         "calls": [list(c) for c in calls[:8]], "expected": [list(c) for c in exp[:8]], "what": bad,
+                         "request": req[:200], "replay": {"request": req, "meta": m}}]
+            quiet = 0 if calls else quiet + 1
+    return []
+
+
 def oracle(run, fw, exe, single):
-    """`single`: task id -> {"crash":.., "events": {fn: [(off, set, p3)]}} from the real single-task runs.
-    With several tasks the calls of a tick must be exactly those of the active tasks taken alone, in task
-    order, each once; a disabled task is not scheduled from the next mframe_schedule() on; the active set
-    never exceeds the target set and equals it when nothing scheduled is in the way."""
     reqs, out = real(run, fw, exe)
     wit = []
     for (req, m), ans in zip(reqs, out):
-        if m["kind"] != "cycle":
-            continue
-        if ans.startswith("crash"):
-            wit.append({"kind": "fw-runtime", "request": req[:300], "what": "mframe_schedule() faulted: %s" % ans})
-            continue
-        ops = ans.split("|")
-        tgt = m["init"][1]
-        maxrv = max([2] + m["rvs"])
-        quiet = 10 ** 9          # ticks since the last call (start: reset => nothing in the way)
-        bad = None
-        for h, o in zip(m["hist"], ops):
-            if h[0] == "r":
-                tgt = 0
-                quiet = 10 ** 9
-            elif h[0] == "s":
-                tgt = h[1]
-            elif h[0] == "e":
-                tgt |= 1 << h[1]
-            elif h[0] == "d":
-                tgt &= ~(1 << h[1])
-            if h[0] != "t":
-                continue
-            for k, tok in enumerate(o.split(" ") if o != "-" else []):
-                fn = h[1] + k
-                calls, tasks, safe = parse_tick(tok)
-                exp = []
-                for t in range(32):
-                    if (tasks >> t) & 1:
-                        s1 = single.get(t)
-                        if s1 is None or s1["crash"]:
-                            continue
-                        exp += [(fn, off, st, p3) for off, st, p3 in s1["events"].get(fn, [])]
-                if tasks & ~tgt:
-                    bad = "a task that is not in the target set is active"
-                elif calls != exp:
-                    bad = "the calls of the tick are not those of the active tasks taken alone"
-                elif quiet > maxrv + 2 and tasks != tgt:
-                    bad = "nothing scheduled is in the way, but the active set is not the target set"
-                if bad:
-                    wit.append({"kind": "fw-runtime", "fn": fn, "tasks_active": tasks, "tasks_target": tgt, "safe_fn": safe,
-                                "calls": calls[:8], "expected": exp[:8], "what": bad,
-                                "request": req[:200], "replay_request": req, "replay_hist": m["hist"], "replay_rvs": m["rvs"]})
-                    break
-                quiet = 0 if calls else quiet + 1
-            if bad:
-                break
+        if m["kind"] == "cycle":
+            wit += judge(req, m, ans, single)
     return wit
+
+
+def replay_witness(run, exe, w, single):
+    rp = w.get("replay") or {}
+    if "request" not in rp:
+        return None
+    m = rp["meta"]
+    m = dict(m, hist=[tuple(h) for h in m["hist"]])
+    ans = vf.run_lines([exe], [rp["request"]])[0]
+    return judge(rp["request"], m, ans, single)
